@@ -17,4 +17,9 @@ def unboxKey? {κ ν : Type} : Val κ ν → Except PyExc κ
   | .key k => .ok k
   | _ => .error PyExc.Other
 
+/-- the same for a VALUE read back out of a cell (`yield curr[KEY], curr[VALUE]`) -/
+def unboxVal? {κ ν : Type} : Val κ ν → Except PyExc ν
+  | .val v => .ok v
+  | _ => .error PyExc.Other
+
 end PyRtC01
